@@ -143,30 +143,30 @@ func init() {
 		},
 	})
 	def("C11", &propertyDef{
-		Decides:    "in everything reachable from SetDefaultValues, Canonical and Normalize every update of a map the function did not create is guarded by an absence test, an alias test, derives from the previous value, or is the current entry of a range (DFLT); SetDefaultValues and Normalize are gated by their flags and propagate errors (PIPE); the defaultValues rows denote schema paths (A2).",
+		Decides:    "in everything reachable from SetDefaultValues, Canonical and Normalize every update of a map the function did not create is guarded by an absence test, an alias test, derives from the previous value, or is the current entry of a range (DFLT); SetDefaultValues and Normalize are gated by their flags and propagate errors (PIPE); the defaultValues rows denote schema paths (A2); defaults filled in for several entries are separate objects: no loop stores one loop-invariant map under several keys, so refining one entry later cannot change its siblings (TREE).",
 		NotDecided: "that the default values are the specification's (\"tcp\", \"ingress\", <project>_<key>); that `default` is added iff some service uses it.",
-		Rules:      []string{"DFLT", "PIPE", "A2"},
+		Rules:      []string{"DFLT", "PIPE", "A2", "TREE"},
 		Run: func(c *rules.Ctx) []report.Obligation {
 			return cat(c.DFLT("DFLT", []string{"transform.SetDefaultValues", "transform.Canonical", "loader.Normalize"}, []string{"loader.load"}),
-				c.PIPE("PIPE", stageIn("transform.SetDefaultValues", "loader.Normalize")), c.A2("A2", rules.TDefaults))
+				c.PIPE("PIPE", stageIn("transform.SetDefaultValues", "loader.Normalize")), c.A2("A2", rules.TDefaults), c.TREE("TREE", "LOAD"))
 		},
 	})
 	def("C12", &propertyDef{
-		Decides:    "each path-bearing attribute named by the statement matches exactly one resolver row and no resolver sits on another attribute (A9); resolver patterns are exclusive and denote schema paths (A1, A2); each origin resolves against its own base: main files against config.WorkingDir gated by ResolvePaths, included projects against loader.Dir / project_directory (ORIGIN), extended files against loader.Dir(refPath) with the nested load not resolving (EXT-5).",
-		NotDecided: "absolute / remote / Windows detection, `~` expansion, idempotence: value-level string predicates.",
-		Rules:      []string{"A9", "A1", "A2", "ORIGIN", "EXT-5", "PIPE", "TREEPATH"},
+		Decides:    "each path-bearing attribute named by the statement matches exactly one resolver row and no resolver sits on another attribute (A9); resolver patterns are exclusive and denote schema paths (A1, A2); each origin resolves against its own base: main files against config.WorkingDir gated by ResolvePaths, included projects against loader.Dir / project_directory (ORIGIN), extended files against loader.Dir(refPath) with the nested load not resolving (EXT-5); a build context containing `://` is returned unchanged on the strength of a plain substring test (URLCTX).",
+		NotDecided: "absolute / known-remote-prefix / Windows detection, `~` expansion, idempotence: value-level string predicates.",
+		Rules:      []string{"A9", "A1", "A2", "ORIGIN", "EXT-5", "PIPE", "TREEPATH", "URLCTX"},
 		Run: func(c *rules.Ctx) []report.Obligation {
-			return cat(c.A9("A9"), c.TREEPATH("TREEPATH"), c.A1("A1", rules.TResolvers), c.A2("A2", rules.TResolvers), c.ORIGIN("ORIGIN"), rules.OnlyRule(c.EXT("EXT"), "EXT-5"),
+			return cat(c.A9("A9"), c.TREEPATH("TREEPATH"), c.URLCTX("URLCTX"), c.A1("A1", rules.TResolvers), c.A2("A2", rules.TResolvers), c.ORIGIN("ORIGIN"), rules.OnlyRule(c.EXT("EXT"), "EXT-5"),
 				c.PIPE("PIPE", stageIn("paths.ResolveRelativePaths")))
 		},
 	})
 	def("C13", &propertyDef{
-		Decides:    "the spawn in visit is gated by ready then enter; in the spawned closure the visitor precedes done, done precedes the hand-off send, and every exit sends (TRV-1/2); ready returns true only after the loop over all dependencies and the direction tables are mirror images (TRV-4); vertexVisited is stored only in done, enter is a test-and-set (TRV-5); status and results are accessed only under the mutex, in the constructor or after the join (R3); walk returns eg.Wait() after any spawn, channel capacity is len-derived with one send per closure (FAN); the cycle error returns before walk (TRV-7); the errgroup limit is maxConcurrency + the coordinator (TRV-10); fields of graph/vertex/Options are not written in the concurrent phase (RONLY); the traversal does not write through the *Project argument (IMM-I1).",
+		Decides:    "the spawn in visit is gated by ready then enter; in the spawned closure the visitor precedes done, done precedes the hand-off send, and every exit sends (TRV-1/2); ready returns true only after the loop over all dependencies and the direction tables are mirror images (TRV-4); vertexVisited is stored only in done, enter is a test-and-set (TRV-5); status and results are accessed only under the mutex, in the constructor or after the join (R3); walk returns eg.Wait() after any spawn, channel capacity is len-derived with one send per closure (FAN); the cycle error returns before walk (TRV-7); the errgroup limit is maxConcurrency + the coordinator (TRV-10); the coordinator's counter starts at the number of vertices, drops by one per received vertex and stops the coordinator at zero (TRV-8); a skipped vertex is decided from state that the walk does not change (TRV-11); every mutex or semaphore slot taken is given back on every path to an exit (PAIR); fields of graph/vertex/Options are not written in the concurrent phase (RONLY); the traversal does not write through the *Project argument (IMM-I1).",
 		NotDecided: "liveness under every completion order, exactly-once, the interleaving space itself: the domain of model checking / schedule exploration.",
-		Rules:      []string{"TRV", "R3", "FAN", "RONLY", "IMM"},
+		Rules:      []string{"TRV", "R3", "FAN", "RONLY", "IMM", "PAIR"},
 		Run: func(c *rules.Ctx) []report.Obligation {
 			return cat(c.TRV("TRV"), c.R3("R3", "graph"), c.FanOut("FAN", "graph"),
-				c.ROnly("RONLY", "graph", []string{"graph.walk"}, map[string]bool{"traversal.status": true, "traversal.results": true}), c.TRVSkip("TRV-11"), c.TRVCount("TRV-8"), c.IMMGraph("IMM"))
+				c.ROnly("RONLY", "graph", []string{"graph.walk"}, map[string]bool{"traversal.status": true, "traversal.results": true}), c.TRVSkip("TRV-11"), c.TRVCount("TRV-8"), c.PAIR("PAIR", "graph"), c.IMMGraph("IMM"))
 		},
 	})
 	def("C14", &propertyDef{
@@ -186,11 +186,12 @@ func init() {
 		},
 	})
 	def("C16", &propertyDef{
-		Decides:    "OverrideBy writes unconditionally, Resolve only valueless keys (LAY-1); env/label files are applied in slice order onto a fresh accumulator and the service's own entries are the argument of the last OverrideBy, whose result is stored (LAY-2); the lookup handed to the env-file parser reads the accumulator then the project environment (LAY-3); file references are dropped only under the discard flag (LAY-4); loadEnvFile returns (nil,nil) only for a missing, not-required file (LAY-gate).",
+		Decides:    "OverrideBy writes unconditionally, Resolve only valueless keys (LAY-1); env/label files are applied in slice order onto a fresh accumulator and the service's own entries are the argument of the last OverrideBy, whose result is stored (LAY-2); the lookup handed to the env-file parser reads the accumulator then the project environment (LAY-3); file references are dropped only under the discard flag (LAY-4); loadEnvFile returns (nil,nil) only for a missing, not-required file (LAY-gate); a variable lookup counts as found on its boolean result alone (never on the value being non-empty) and lookup functions keep no memo (LOOKUP).",
 		NotDecided: "dotenv semantics, cross-references between layers, that discarding removes only the file references.",
-		Rules:      []string{"LAY"},
+		Rules:      []string{"LAY", "LOOKUP"},
 		Run: func(c *rules.Ctx) []report.Obligation {
-			return cat(c.LAY("LAY"), c.RangeGuard("LAY-1", "types.(MappingWithEquals).OverrideBy", false), c.RangeGuard("LAY-1", "types.(MappingWithEquals).Resolve", true))
+			return cat(c.LAY("LAY"), c.RangeGuard("LAY-1", "types.(MappingWithEquals).OverrideBy", false), c.RangeGuard("LAY-1", "types.(MappingWithEquals).Resolve", true),
+				c.LOOKUP("LOOKUP", "dotenv", "types", "loader", "cli"))
 		},
 	})
 	def("C17", &propertyDef{
@@ -207,24 +208,24 @@ func init() {
 		NotDecided: "that the returned map is the grammar's (quoting, escapes, inline comments, lookup precedence): needs a reference evaluator.",
 		Rules:      []string{"PANIC-IDX", "PANIC-TA", "PANIC-EXPL", "TERM", "ERRRET", "ERRDROP"},
 		Run: func(c *rules.Ctx) []report.Obligation {
-			return cat(c.PanicIDX("PANIC-IDX", "DOTENV"), c.PanicTA("PANIC-TA", "DOTENV"), c.PanicExpl("PANIC-EXPL", "DOTENV"), c.TERM("TERM", "DOTENV"), c.ERRRET("ERRRET"), c.ERRDROP("ERRDROP", "DOTENV"), c.REFS("REFS", "dotenv"))
+			return cat(c.PanicIDX("PANIC-IDX", "DOTENV"), c.PanicTA("PANIC-TA", "DOTENV"), c.PanicExpl("PANIC-EXPL", "DOTENV"), c.TERM("TERM", "DOTENV"), c.ERRRET("ERRRET"), c.ERRDROP("ERRDROP", "DOTENV"), c.REFS("REFS", "dotenv"), c.LOOKUP("LOOKUP", "dotenv"))
 		},
 	})
 	def("C19", &propertyDef{
 		Decides:    "no package-level variable is written outside init (GLOB); for every function that spawns goroutines: state written by a spawned closure is not touched by the spawner between spawn and Wait nor by a sibling closure without a common mutex (R2), the owner returns Wait()'s error on every path after a spawn (R4), channels sent on from closures have len-derived capacity and one send per closure (R5); mutex-guarded fields are only accessed under the mutex, in constructors or after the join (R3); graph structures are read-only during the walk (RONLY).",
 		NotDecided: "data-race freedom of dependencies (logrus, gojsonschema globals); that each load returns what it would return alone beyond the absence of shared writable state; channel happens-before is not modelled.",
-		Rules:      []string{"GLOB", "FAN", "R3", "RONLY"},
+		Rules:      []string{"GLOB", "FAN", "R3", "RONLY", "PAIR"},
 		Run: func(c *rules.Ctx) []report.Obligation {
-			return cat(c.GLOB("GLOB"), c.FanOut("FAN"), c.R3("R3", "graph", "types"),
+			return cat(c.GLOB("GLOB"), c.FanOut("FAN"), c.R3("R3", "graph", "types"), c.PAIR("PAIR", "graph", "loader"),
 				c.ROnly("RONLY", "graph", []string{"graph.walk"}, map[string]bool{"traversal.status": true, "traversal.results": true}))
 		},
 	})
 	def("C20", &propertyDef{
-		Decides:    "each of the four secret/config marshallers blanks Content on the edge where it must not be rendered and reads the rendered copy afterwards (SEC-1); they exist with value receivers (SEC-2); marshallContent is written in one function, under the explicit option, on a deep copy (SEC-3); the decoder hook moves the carrier key to Content and deletes it (SEC-4); environment values looked up for secrets/configs are stored only under the carrier key resp. `content` (SEC-5); the project renderers do not write through the project (IMM-I1).",
+		Decides:    "each of the four secret/config marshallers blanks Content on the edge where it must not be rendered and reads the rendered copy afterwards (SEC-1); they exist with value receivers (SEC-2); marshallContent is written in one function, under the explicit option, on a deep copy (SEC-3); the decoder hook moves the carrier key to Content and deletes it (SEC-4); the renderers keep no package-level state (no pooled buffer a returned rendering could alias) (GLOB); environment values looked up for secrets/configs are stored only under the carrier key resp. `content` (SEC-5); the project renderers do not write through the project (IMM-I1).",
 		NotDecided: "non-occurrence of the value in the bytes (a second struct field, a user extension literally named x-#value, a value present elsewhere in the model); exact reproduction with WithSecretContent.",
-		Rules:      []string{"SEC", "IMM-I1"},
+		Rules:      []string{"SEC", "IMM-I1", "GLOB"},
 		Run: func(c *rules.Ctx) []report.Obligation {
-			return cat(c.SEC("SEC"), c.IMMRender("IMM"))
+			return cat(c.SEC("SEC"), c.IMMRender("IMM"), rules.Only(c.GLOB("GLOB"), "types.", "inventory"))
 		},
 	})
 }
